@@ -2,6 +2,7 @@ pub mod chmux_wl;
 pub mod c01;
 pub mod c04;
 pub mod c05;
+pub mod c05b;
 pub mod c06;
 pub mod c07;
 pub mod c08;
